@@ -31,7 +31,7 @@ func init() {
 		Assumptions: []string{"porcupine's verdict Unknown (timeout) is inconclusive", "linearizability is checked for histories in which the watched directories themselves are not deleted (the watch would end asynchronously, which a sequential model cannot place)"},
 		Batches:     func(t string) int { return map[string]int{"quick": 12, "thorough": 48}[t] },
 		RaceBatches: func(t string) int { return map[string]int{"quick": 4, "thorough": 24}[t] },
-		MustObserve: []string{"histories_checked", "histories_with_overlap", "linearizable", "weak_variant_histories"},
+		MustObserve: []string{"histories_checked", "histories_with_overlap", "linearizable", "weak_variant_histories", "replace_race_iterations"},
 		Run:         runC07,
 	})
 }
@@ -126,6 +126,8 @@ func runC07(c *core.Ctx) {
 		}
 	}
 	fsnotify.VerifSetHooks(nil)
+	runtime.GOMAXPROCS(16)
+	replaceRace(c, 5000000, "")
 	st.points.Range(func(k, v interface{}) bool {
 		c.Hist("yield_point_hits", k.(string), atomic.LoadInt64(v.(*int64)))
 		return true
